@@ -13,7 +13,7 @@ RULE = ('(a) real step() on random models, 1–4 ranks, all strategies, both met
         'unclipped V; the clipped gradients must be nu*V with ONE nu for all layers and ranks, nu = min(1, sqrt(kl/|Σ<V,D>lr²|)), '
         'bound nu²lr²|Σ<V,D>| ≤ kl; (b) exact stream: _compute_grad_scale on hand-set dyadic gradients vs the Lean rational '
         'nu² and the weight/bias split of <V,D>; (c) constructor accepts kl_clip=None; non-trivial = clipping active (nu<1)'
-        '; statement oracle on negative inner products; half-precision models whose per-layer terms are exact but whose sum is not; histories mixing unclipped and clipped steps with gradient tensors kept alive and bias-free layers')
+        '; statement oracle on negative inner products; fine-tuning scale (lr down to 2^-26, clip down to 2^-80: products far below float32 eps but non-zero); half-precision models whose per-layer terms are exact but whose sum is not; histories mixing unclipped and clipped steps with gradient tensors kept alive and bias-free layers')
 TRUSTED = [
     'Lean 4.33 kernel + Mathlib; axioms audited ⊆ {propext, Classical.choice, Quot.sound}',
     'hand-written models KV.Alg.nuSq/inner and the nu term of KV.Precond/KV.Spec tied to _compute_grad_scale/update_grad',
@@ -93,6 +93,11 @@ def exact_stream(ctx):
         m = torch.nn.Sequential(torch.nn.Linear(3, 2, bias=biases[0]), torch.nn.Linear(2, 2, bias=biases[1])).double()
         kl = Fraction(rng.choice([1, 1, 3, 5]), 2 ** rng.randrange(0, 12))
         lr = Fraction(rng.choice([0, 1, 1, 3]), 2 ** rng.randrange(0, 4))
+        if rng.random() < 0.25:
+            # fine-tuning scale: tiny learning rate with a clip lowered to match — |Σ<V,D>| lr² far below any float
+            # tolerance and still far from zero (the formula has no threshold other than exactly 0)
+            lr = Fraction(rng.choice([1, 3]), 2 ** rng.randrange(10, 26))
+            kl = Fraction(rng.choice([1, 3, 5]), 2 ** rng.randrange(24, 80))
         p = KFACPreconditioner(m, kl_clip=float(kl), lr=float(lr))
         tot = Fraction(0)
         # sometimes one layer's gradient is exactly zero (an auxiliary head whose loss weight is 0, dead units): its inner
